@@ -13,7 +13,7 @@ PROFILES = ["debug", "release"]
 CORR_IMPORT = "From Coq Require Import Floats.\nFrom RlibV Require Import C10.Model C10.Corr.\nOpen Scope Z_scope."
 CASE_TYPE = "case"
 AUDIT_IMPORT = ("From Coq Require Import Reals ZArith List Bool.\n"
-                "From RlibV Require Import C10.Model C10.RInst C10.Properties.\nOpen Scope R_scope.")
+                "From RlibV Require Import C10.Model C10.RInst C10.Properties.\nFrom RlibV Require C10.Corr C10.ProofsRatio.\nOpen Scope R_scope.")
 EXPLAIN = "explain"
 AXIOM_ALLOW = ["ClassicalDedekindReals.sig_forall_dec", "ClassicalDedekindReals.sig_not_dec",
                "FunctionalExtensionality.functional_extensionality_dep"]
@@ -42,6 +42,10 @@ THEOREMS = [
      'forall (eps : R) (a b : Circ R), 0 < eps -> eps <= cr b -> cr b <= cr a -> let d := edist (cc a) (cc b) in (cr a + cr b + eps <= d -> intersect_cc rops eps a b = CCNone /\\ forall p, on_circle a p -> ~ on_circle b p) /\\ (cr a + cr b - eps <= d < cr a + cr b + eps -> intersect_cc rops eps a b = CCTouchOutside (touch_pt a b)) /\\ (cr a - cr b + eps <= d < cr a + cr b - eps -> exists p q, intersect_cc rops eps a b = CCIntersect p q /\\ on_circle a p /\\ on_circle b p /\\ on_circle a q /\\ on_circle b q /\\ p <> q) /\\ (cr a - cr b - eps <= d < cr a - cr b + eps -> ~ (d < eps /\\ cr a < cr b + eps) -> intersect_cc rops eps a b = CCTouchInside (touch_pt a b)) /\\ (d < cr a - cr b - eps -> intersect_cc rops eps a b = CCNone /\\ forall p, on_circle a p -> ~ on_circle b p) /\\ (d < eps -> cr a < cr b + eps -> intersect_cc rops eps a b = CCSame)'),
     ('c10_cc_old_crossing',
      'forall (eps : R) (a b : Circ R), 0 < eps -> eps <= cr b -> cr b <= cr a -> let d := edist (cc a) (cc b) in cr a - cr b + eps <= d < cr a + cr b - eps -> 2 * d * eps <= (cr a + cr b - d) * (cr b + d - cr a) -> exists p q, intersect_cc_ordered_old rops eps a b = CCIntersect p q /\\ on_circle a p /\\ on_circle b p /\\ on_circle a q /\\ on_circle b q /\\ p <> q'),
+    ('c10_cc_big_crossing',
+     'forall (eps : R) (a b : Circ R), 0 < eps -> eps <= cr b -> cr b <= cr a -> let d := edist (cc a) (cc b) in cr a - cr b + eps <= d < cr a + cr b - eps -> exists p q, intersect_cc_ordered_big rops eps a b = CCIntersect p q /\\ on_circle a p /\\ on_circle b p /\\ on_circle a q /\\ on_circle b q /\\ p <> q'),
+    ('c10_cc_big_ratio_refuted',
+     '(exists p q, Corr.of_cc (intersect_cc_big Corr.fops Corr.feps ProofsRatio.w_a ProofsRatio.w_b) = Corr.MTwo p q) /\\ Corr.spec_check (ProofsRatio.w_case (ProofsRatio.obs_of (Corr.of_cc (intersect_cc_big Corr.fops Corr.feps ProofsRatio.w_a ProofsRatio.w_b)))) = false /\\ Corr.spec_check (ProofsRatio.w_case (ProofsRatio.obs_of (Corr.of_cc (intersect_cc Corr.fops Corr.feps ProofsRatio.w_a ProofsRatio.w_b)))) = true /\\ Corr.spec_check (ProofsRatio.w_case (ProofsRatio.obs_of (Corr.of_cc (intersect_cc Corr.fops Corr.feps ProofsRatio.w_b ProofsRatio.w_a)))) = true'),
     ('c10_cc_swap',
      'forall (eps : R) (a b : Circ R), cr a < cr b -> intersect_cc rops eps a b = intersect_cc rops eps b a'),
     ('c10_touch_points_on_both',
